@@ -8,7 +8,9 @@ import re
 from .. import core, mm, mmgen2, sx
 
 THEOREMS = ['C17.print_parse', 'C17.parse_print_parse', 'C17.slice_floats_in_order', 'C17.slice_declares',
-            'C17.slice_labels_present', 'C17.slice_keeps_lemma', 'C17.slice_keeps_disjointness']
+            'C17.slice_labels_present', 'C17.slice_keeps_lemma', 'C17.slice_keeps_disjointness', 'C17.slice_keeps_top_ess',
+            'C17.slice_verifies', 'C17.slice_verifies_of_verifyDb', 'C17.slice_verifies_nonvacuous',
+            'C17.cex_disj_now_verifies', 'C17.cex_top_ess_now_verifies']
 
 
 def hx(s):
@@ -24,16 +26,10 @@ def toks_sx(toks):
 
 
 def canon_slice(sl_sx):
-    """an AST S-expression with the `$d` statements of the top level put into one canonical order (the real slicer
-    iterates a set of frozensets there)"""
+    """an AST S-expression, frozen for comparison.  The comparison is EXACT: since the commit "keep a top-level $d statement
+    at its place in a slice" no output of the slicer depends on the iteration order of a set any more"""
     assert sl_sx[0] == 'mdb'
-    out, ds = [], []
-    for s in sl_sx[1:]:
-        if s[0] == 'd':
-            ds.append(('d', tuple(sorted(s[1]))))
-        else:
-            out.append(s)
-    return ('mdb', tuple(sorted(ds)), tuple(map(freeze, out)))
+    return freeze(sl_sx)
 
 
 def freeze(x):
@@ -73,6 +69,24 @@ def mutate_tokens(rng, toks):
     return toks
 
 
+class _Fixed:
+    def __init__(self, lemmas):
+        self.lemmas = lemmas
+
+
+REGRESSION = [
+    # a top-level $d AFTER an axiom over both variables, which the lemma uses with equal variables
+    ('$c |- ( ) foo #Pattern $. $v x y z $. x-f $f #Pattern x $. y-f $f #Pattern y $. z-f $f #Pattern z $.\n'
+     'ax1 $a |- ( foo x y ) $. $d x y $. th $p |- ( foo z z ) $= ( ax1 ) AAB $.', ['th']),
+    # an essential hypothesis outside any block, cited by the lemma
+    ('$c |- ( ) foo #Pattern $. $v x $. x-f $f #Pattern x $. h $e |- ( foo x x ) $.\n'
+     'th $p |- ( foo x x ) $= ( ) B $.', ['th']),
+    # a $d over four variables of which the slice needs two, between the axiom and the lemma that needs it
+    ('$c |- ( ) foo #Pattern $. $v x y z w $. x-f $f #Pattern x $. y-f $f #Pattern y $. z-f $f #Pattern z $. w-f $f #Pattern w $.\n'
+     '$d w x z y $. ${ $d x y $. ax1 $a |- ( foo x y ) $. $} th $p |- ( foo x y ) $= ( ax1 ) ABC $.', ['th']),
+]
+
+
 def run(rep):
     rng = random.Random(rep.seed * 1000003 + 17)
     ok, detail = core.proof_gate(rep, 'Pi2.Props.C17', THEOREMS)
@@ -86,6 +100,10 @@ def run(rep):
         src = mmgen2.render(rng, st)
         mm.verify(src, strict=True)          # generator sanity (an exception here is a bug of the generator, not a finding)
         cases.append((db, st, src))
+    # the two databases on which the slicer was found wrong while `slice_verifies` was being proved (repaired since: F17, F18)
+    for src, lemmas in REGRESSION:
+        mm.verify(src, strict=True)
+        cases.append((_Fixed(lemmas), mm.parse(src), src))
     # ---- 1. printing and parsing: the real code, the model, an independent tokenizer
     sources = [src for _, _, src in cases]
     n_valid = len(sources)
@@ -193,13 +211,14 @@ def run(rep):
         if real != mod:
             bad = next((a for a, b in zip(real, mod) if a != b), None)
             findings.append({'key': 'model-slice', 'first_difference': unhx(bad[0]) if bad else 'number of slices', 'source': src[-2500:],
-                             'what': 'correspondence: slice_database and the Lean model of it produce different slices (modulo the order of $d statements)'})
+                             'what': 'correspondence: slice_database and the Lean model of it produce different slices (exact comparison)'})
     rep.coverage.update({
         'evaluations': len(sources) + n_slices, 'distinct_nontrivial': len(set(sources)) + n_slices,
         'rule': 'random databases (constants, n-ary constructors, notation and symbol axioms, axioms in nested blocks with $e and $d, '
                 '$v/$f scattered over the file, 1-4 lemmas depending on earlier lemmas, lemmas with essential hypotheses, compressed proofs with '
-                'and without Z) rendered with random line breaks and comments; REAL parse_database / Encoder / slice_database vs the Lean models '
-                '(ASTs, token sequences, slices modulo $d order); property oracles: parse(print(db)) == db by the real parser, printed tokens == '
+                'and without Z; top-level $d AFTER an assertion over both variables which a lemma uses with equal variables, $d over 2-5 variables of which a '
+                'slice needs only some, variable-free $e outside any block cited by the lemmas after it) rendered with random line breaks and comments; REAL parse_database / Encoder / slice_database vs the Lean models '
+                '(ASTs, token sequences, slices: exact); property oracles: parse(print(db)) == db by the real parser, printed tokens == '
                 'source tokens, every slice re-parses, is accepted by an independent strict Metamath verifier (all symbols, variables and '
                 'hypotheses declared; the lemma proved with its original proof and statement), floats in original order; plus a malformed stream',
         'programs': len(sources), 'slices': n_slices, 'parser_outcomes': outcome, 'float_positions_checked': float_positions,
@@ -207,7 +226,8 @@ def run(rep):
         'samples': [cases[0][2][-600:]],
     })
     rep.assumptions += ['the lark lexer (whitespace, comments, keyword terminals) and the printer\'s whitespace are outside the Lean model: tokens are compared',
-                        'slice_verifies (the proof still verifies against the slice) is decided by the independent verifier on every generated slice, not by a theorem',
+                        'slice_verifies is a theorem (C17.slice_verifies, for databases satisfying MM.WellFormedDb, about the Lean reference verifier Pi2/MM/Verify.lean, '
+                        'which vlib/validate_verify.py compares with the independent Python verifier vlib/mm.py); the independent verifier is still run on every generated slice',
                         'one assertion per block (match_axiom registers only one conclusion per block); labels are unique']
     seen = set()
     for f in findings:
